@@ -428,6 +428,13 @@ def rand_array(sr, rng, sym=None, ndim=None, fermionic=False, maxnd=4, **kw):
         ndim = rng.randint(0 if kw.pop("allow0", False) else 1, maxnd)
     maxc = kw.pop("maxc", 3)
     maxd = kw.pop("maxd", 3)
+    p_many = kw.pop("many_legs_p", 0.0)
+    if p_many and rng.random() < p_many:
+        # 6-8 legs with two charges of size one each (a sector can hold 6-8 odd charges)
+        ndim = rng.randint(6, 8)
+        idx = [rand_index(sr, rng, sym, maxc=2, maxd=1, p_single=0.0, minc=2) for _ in range(ndim)]
+        EXOTIC_SEEN["six-or-more-legs"] = EXOTIC_SEEN.get("six-or-more-legs", 0) + 1
+        return make_array(sr, rng, sym, idx, fermionic=fermionic, **kw)
     idx = [rand_index(sr, rng, sym, maxc=maxc, maxd=maxd) for _ in range(ndim)]
     share_index_objects(rng, idx)
     return make_array(sr, rng, sym, idx, fermionic=fermionic, **kw)
